@@ -141,8 +141,33 @@ def write_errors_rule(ck, P):
              "the Result of %s is neither propagated nor unwrapped where it is produced: a failed (torn) write can be forgotten and the writer still commits indexes and the final header" % bad[:3])
 
 
+def mbtiles_fresh_rule(ck, P):
+    """the MBTiles writer starts from an empty database: an existing file at the target path is removed (under `path.exists()` only)
+    before the connection is opened — otherwise rows of the previous content survive next to the new ones"""
+    from . import census
+    nw = [b for b in P.bodies if b["q"].endswith("mbtiles::writer::MBTilesWriter::new")]
+    if not ck.anchor("R-COMMIT-ORDER", "MBTilesWriter::new", nw, 1):
+        return
+    b = nw[0]
+    order = {id(n): i for i, n in enumerate(ir.walk_nodes(b["body"]))}
+    rm = census.nodes_with_facts(ir.fn_block(b), lambda y: y.get("k") == "call" and (y.get("q") or "").endswith(("fs::remove_file", "fs::File::create")))
+    opens = [y for y in ir.walk_nodes(b["body"]) if y.get("k") in ("call", "mcall") and ((y.get("q") or "").endswith(("SqliteConnectionManager::file", "Connection::open")))]
+    ok = False
+    why = "no removal of an existing file"
+    if rm and opens:
+        n, fs = rm[0]
+        conds = [f for f in fs if f[0] in ("pred", "cmp")]
+        fine = bool(conds) and all(f[0] == "pred" and f[2] in ("exists", "is_file", "try_exists") and f[4] is True for f in conds)
+        fine = fine or not ir.contains(ir.fn_block(b), lambda y: y.get("k") == "if" and ir.contains(y["then"], lambda z: z is n))
+        ok = fine and order[id(n)] < order[id(opens[0])]
+        why = "removal guarded by %s, before the open: %s" % ([" ".join(map(str, f[1:])) for f in conds], order[id(n)] < order[id(opens[0])])
+    ck.check(ok, "R-COMMIT-ORDER", b["q"] + "|fresh-file", "an existing file at the target path is removed before the database is opened (only guard: the file exists)",
+             "the MBTiles writer can open a database that still holds the previous content (%s): old tiles and metadata survive next to the new ones" % why, ir.loc(b))
+
+
 def rules(ck, P):
     write_errors_rule(ck, P)
+    mbtiles_fresh_rule(ck, P)
     entries = []
     for i in P.impls_of("::TilesWriterTrait"):
         m = P.impl_method(i, "write_to_writer")
